@@ -321,7 +321,7 @@ def classify(s: sg.Schema, rr: Dict[str, Any]) -> Optional[str]:
     return None
 
 
-def run_json(ck: Check, prop_file: str, n_quick=(60, 4), n_thorough=(600, 8), opts_quick=("-O1",),
+def run_json(ck: Check, prop_file: str, n_quick=(40, 4), n_thorough=(600, 8), opts_quick=("-O1",),
              opts_thorough=("-O0", "-O2", "-O3")) -> None:
     ck.assumptions.extend(ASSUME)
     import time as _time
@@ -342,7 +342,13 @@ def run_json(ck: Check, prop_file: str, n_quick=(60, 4), n_thorough=(600, 8), op
                                    "tools/run_json.py + CPython 3.12 + gcc + ctypes",
                                    "no axioms (Print Assumptions: closed)"]
     ck.try_prove(prop_file, model_vo=("theories/JsonCheck.vo",))
-    from vlib import coq_build
+    from vlib import COQ, coq_build
+    if any(b["what"].startswith("translator") for b in ck.broken_obligations):
+        # the source no longer translates: the last accepted translation stands in for the model
+        # while the implementation is searched for a concrete failing input
+        import shutil
+        shutil.copy(os.path.join(COQ, "ref", "GenJson.v"), os.path.join(COQ, "gen", "GenJson.v"))
+        ck.coverage["tie"]["model_from_reference_translation"] = True
     ok, log = coq_build(["theories/JsonCheck.vo"])
     if not ok:
         ck.model_ok = False
@@ -358,10 +364,19 @@ def run_json(ck: Check, prop_file: str, n_quick=(60, 4), n_thorough=(600, 8), op
         cases.append((s, vals, "corpus:" + os.path.basename(j["_path"])))
     n_corpus = len(cases)
     rng = random.Random(f"{ck.prop}:{ck.seed}:streams")
-    cases.extend(known_class_stream(rng))
-    cases.extend(width_stream(rng))
+    if ck.replay_file:
+        # ./check C16 --replay <file>: only the case(s) of that replay / corpus file
+        j = json.load(open(ck.replay_file))
+        s = sg.schema_from_json(j["schema"])
+        vals = j["values"] if "values" in j else [j["value"]]
+        cases = [(s, [sg.value_from_json(s.top, v) for v in vals], "replay:" + os.path.basename(ck.replay_file))]
+        n_corpus = 1
+    else:
+        cases.extend(known_class_stream(rng))
+        cases.extend(width_stream(rng))
     n_fixed = len(cases)
-    cases.extend(gen_cases(ck, ns, nv))
+    if not ck.replay_file:
+        cases.extend(gen_cases(ck, ns, nv))
 
     opts = list(opts_quick if ck.quick else opts_thorough)
     # lib/c/bitproto.c of the tree under test, compiled once per optimisation level
@@ -498,7 +513,7 @@ def run_json(ck: Check, prop_file: str, n_quick=(60, 4), n_thorough=(600, 8), op
                              json.dumps(replay)[:2500]))
     # every (kind, width) must have been exercised
     missing = [(k, w) for k in ("uint", "int", "enum") for w in range(1, 65) if (k, w) not in width_seen]
-    if missing and not impl_fail:
+    if missing and not impl_fail and not ck.replay_file:
         ck.broken(Broken("harness: the width stream did not exercise " + str(missing[:10])))
 
     cov = ck.coverage
